@@ -28,14 +28,15 @@ try:
         ap = sh("git -C %s apply %s" % (WT, patch))
         if ap.returncode != 0:
             print(sid, "patch does not apply:", ap.stderr.strip()[:200]); continue
-        tests = subprocess.run("cd %s && /venv/bin/python -m pytest -q -p no:cacheprovider test 2>&1 | tail -1" % WT, shell=True, capture_output=True, text=True, env=env)
+        # (PYTHONPATH: /venv has an editable install of /repo/modules - without it the suite would test /repo, not the worktree)
+        tests = subprocess.run("cd %s && /venv/bin/python -m pytest -q -p no:cacheprovider test 2>&1 | tail -1" % WT, shell=True, capture_output=True, text=True, env=dict(env, PYTHONPATH=WT + "/modules"))
         try:
             broken = subprocess.run(["/venv/bin/python", demo, WT], capture_output=True, text=True, env=env, timeout=600)
             brc, bout = broken.returncode, (broken.stdout + broken.stderr)[-600:]
         except subprocess.TimeoutExpired:
             brc, bout = 1, "demo timed out (hang) with the patch"
         sh("git -C %s checkout -q -- . && git -C %s clean -fdq" % (WT, WT))
-        ok = clean.returncode == 0 and brc == 1 and "55 passed" in tests.stdout
+        ok = clean.returncode == 0 and brc == 1 and "55 passed" in tests.stdout and "failed" not in tests.stdout
         print(sid, "CONFIRMED" if ok else "REJECTED", "| clean rc", clean.returncode, "| patched rc", brc, "|", tests.stdout.strip())
         if ok:
             dst = os.path.join(VERIF, "seeded", sid)
